@@ -80,6 +80,17 @@ def gen_case(rng, idx, tier):
             hist.append(ctl.tour(rng, T, v.lo + 0.5, v.hi, bits=5) if v.name == "d1" else ctl.tour(rng, T, v.lo - 2.0, v.hi + 2.0, bits=5))
         else:
             hist.append(ctl.tour(rng, T, v.lo, v.hi, bits=5))
+    # hard boundaries (the variable cannot cross them; hills near them need no analytic treatment): the history stays inside on
+    # the hard side(s) and still leaves the grid through a soft one
+    for v, hv in zip(vs, hist):
+        v.hard = ""
+        if not v.periodic and not v.expand and rng.random() < 0.35:
+            v.hard = rng.choice(["lower", "upper", "both"])
+            for t in range(len(hv)):
+                if v.hard in ("lower", "both"):
+                    hv[t] = max(hv[t], v.lo)
+                if v.hard in ("upper", "both"):
+                    hv[t] = min(hv[t], v.hi - 0.03125)
     runs = sorted(rng.sample(range(2, T - 1), 2)) if rng.random() < 0.5 else []
     return dict(idx=idx, vs=vs, hist=hist, T=T, grids=grids, hf=hf, gf=gf, wt=wt, dT=rng.choice([1000.0, 3000.0]),
                 hw=hw, W=W, keep=(grids and rng.random() < 0.3), runs=runs)
@@ -89,6 +100,10 @@ def config(case):
     cfg = ""
     for v in case["vs"]:
         ex = "  expandBoundaries on\n" if v.expand else ""
+        if getattr(v, "hard", "") in ("lower", "both"):
+            ex += "  hardLowerBoundary on\n"
+        if getattr(v, "hard", "") in ("upper", "both"):
+            ex += "  hardUpperBoundary on\n"
         if v.name == "d1":
             cfg += ctl.cv_d1(v.lo0, v.hi0, v.w, extra=ex)
         elif v.name == "d2":
